@@ -152,7 +152,7 @@ def gen_history(rng, cfg, length=None, admin_jobs=True):
         elif r < 0.92:
             evs.append({'op': 'comment', 'pr': pr, 'user': rng.choice([CONTRIB, ADMIN]),
                         'text': '@robot ' + rng.choice(['reset', 'force_reset', 'wait', 'approve', 'help',
-                                                         'bypass_build_status', 'unanimity'])})
+                                                         'bypass_build_status', 'unanimity', 'no_octopus'])})
         elif admin_jobs and r < 0.96:
             evs.append({'op': 'job', 'kind': rng.choice(['rebuild_queues', 'delete_queues', 'force_merge_queues'])})
         elif admin_jobs and r < 0.98:
@@ -373,7 +373,33 @@ def stage_of(status):
     return ['e']
 
 
+# Answer lists of git's content merges tried for an evaluation that ended in a conflict: k successes, then the
+# failure. With the octopus strategy one failing answer ends the evaluation. With `no_octopus` every 3-way merge is
+# `consecutive_merge`: two 2-way merges and, after a MergeFailedException, a retry in the opposite order from where
+# the branch then is - a conflict takes a failing answer in BOTH attempts: `00` (the retry fails at once) or `010`
+# (the first merge of the retry goes through, the second fails). The first question of an evaluation (check_conflict)
+# is a single 2-way merge under both strategies.
 ORC_CANDIDATES = ['-', '0', '10', '110', '1110', '11110', '111110']
+ORC_CANDIDATES_NO_OCTOPUS = ['-', '0'] + ['1' * k + tail for k in range(0, 10) for tail in ('00', '010')]
+
+
+def orc_candidates(no_oct):
+    return ORC_CANDIDATES_NO_OCTOPUS if no_oct else ORC_CANDIDATES
+
+
+OPTION_WORD = re.compile(r'(?:^|\s)no_octopus(?:\s|$)')
+
+
+def no_octopus_of(run, pr):
+    """`job.settings.no_octopus` of an evaluation of this pull request: the command-line option of the robot, or a
+    comment `@robot no_octopus` on the pull request (the option is not privileged: anybody's comment counts, the
+    robot's own do not)."""
+    if run.cfg.no_octopus or 'no_octopus' in run.cfg.options:
+        return True
+    for user, text in run.w.comments(pr['id']):
+        if user != ROBOT and text.strip().startswith('@' + ROBOT) and OPTION_WORD.search(text):
+            return True
+    return False
 
 
 def gone_prs(before, after):
@@ -383,9 +409,9 @@ def gone_prs(before, after):
     return sorted(ids(before) - ids(after))
 
 
-def pr_item(pr, stage, orc, sel):
-    return 'pr %d %s %s %s %s %s' % (pr['id'], pr['src'], dest_code(pr['dst']), stage, orc,
-                                     ','.join(map(str, sel)) or '-')
+def pr_item(pr, stage, orc, sel, no_oct=False):
+    return 'pr %d %s %s %s %s %s %d' % (pr['id'], pr['src'], dest_code(pr['dst']), stage, orc,
+                                        ','.join(map(str, sel)) or '-', 1 if no_oct else 0)
 
 
 def candidates_for(run, info, before, after, host_before, host_after):
@@ -396,6 +422,7 @@ def candidates_for(run, info, before, after, host_before, host_after):
     by_id = {p['id']: p for p in run.prs.values()}
 
     def pr_alts(pr, status):
+        no_oct = no_octopus_of(run, pr)
         st_before = {p['id']: p['state'] for p in host_before}
         st_after = {p['id']: p['state'] for p in host_after}
         if status == 'ResetComplete':      # the command runs before the DECLINED state is looked at
@@ -406,16 +433,16 @@ def candidates_for(run, info, before, after, host_before, host_after):
                             for i in st_after if i != pr['id'])
                 alts = [['declined %d %s %s %d' % (pr['id'], pr['src'], dest_code(pr['dst']), child)]]
                 if status == 'NothingToDo':      # also what a `wait` option gives, before the clone
-                    alts.append([pr_item(pr, 'e', '-', [])])
+                    alts.append([pr_item(pr, 'e', '-', [], no_oct)])
                 return alts
-            return [[pr_item(pr, 'e', '-', [])]]
+            return [[pr_item(pr, 'e', '-', [], no_oct)]]
         if status == 'ResetComplete':
             return [['reset %d %s %s' % (pr['id'], pr['src'], dest_code(pr['dst']))]]
         alts = []
         for stage in stage_of(status):
-            orcs = ORC_CANDIDATES if status in ('Conflict', 'QueueConflict') else ['-']
+            orcs = orc_candidates(no_oct) if status in ('Conflict', 'QueueConflict') else ['-']
             for orc in orcs:
-                alts.append([pr_item(pr, stage, orc, sel)])
+                alts.append([pr_item(pr, stage, orc, sel, no_oct)])
         return alts
 
     if kind == 'pr':
